@@ -1470,7 +1470,9 @@ impl<'a, 'b> ExprTyper<'a, 'b> {
                 ann_typ.clone(),
                 value_typ.clone(),
                 typed_value.type_defining_location(),
-                (kind.is_let() && ann_typ.is_data()) || kind.is_expect() || kind.if_is(),
+                (kind.is_let() && ann_typ.is_data())
+                    // a function cannot be cast: its arguments and result are not values to convert
+                    || ((kind.is_expect() || kind.if_is()) && !ann_typ.is_function()),
             )?;
 
             value_typ = ann_typ.clone();
